@@ -86,6 +86,7 @@ fn j_rl(r: &RLine) -> Value {
 }
 
 struct Case {
+    dialect: &'static str,
     files: Vec<String>,
     rules: String,
     parsing_errors: bool,
@@ -208,13 +209,21 @@ fn lib_lint(cfg: &str, pe: bool, sql: &str, fix: bool) -> Result<(Vec<V>, String
     })
 }
 
+/// the second file of a case lives in a sub-directory (directory mode walks into it)
+fn fname(i: usize) -> String {
+    if i == 1 { "sub/f1.sql".to_string() } else { format!("f{}.sql", i) }
+}
+
 fn old_time() -> std::time::SystemTime {
     std::time::UNIX_EPOCH + std::time::Duration::from_secs(946_684_800)
 }
 fn write_files(dir: &Path, files: &[String]) -> std::io::Result<()> {
     std::fs::create_dir_all(dir)?;
     for (i, c) in files.iter().enumerate() {
-        let f = dir.join(format!("f{}.sql", i));
+        let f = dir.join(fname(i));
+        if let Some(par) = f.parent() {
+            std::fs::create_dir_all(par)?;
+        }
         std::fs::write(&f, c)?;
         std::fs::File::options().write(true).open(&f)?.set_modified(old_time())?;
     }
@@ -222,8 +231,8 @@ fn write_files(dir: &Path, files: &[String]) -> std::io::Result<()> {
 }
 
 fn run_case(env: &Env, idx: usize, c: &Case, out: &mut Buf) {
-    let input = json!({"files":c.files,"rules":c.rules,"parsing_errors":c.parsing_errors});
-    let cfg = format!("[sqruff]\ndialect = ansi\nrules = {}\n", c.rules);
+    let input = json!({"dialect":c.dialect,"files":c.files,"rules":c.rules,"parsing_errors":c.parsing_errors});
+    let cfg = format!("[sqruff]\ndialect = {}\nrules = {}\n", c.dialect, c.rules);
     // ---- the library's answer for every file (lint mode and fix mode)
     let mut lint_vs: Vec<Vec<V>> = vec![];
     let mut fix_vs: Vec<Vec<V>> = vec![];
@@ -297,7 +306,7 @@ fn run_case(env: &Env, idx: usize, c: &Case, out: &mut Buf) {
                 expect_files
                     .iter()
                     .map(|i| {
-                        let name = if mode == "stdin" { "<string>".to_string() } else { format!("f{}.sql", i) };
+                        let name = if mode == "stdin" { "<string>".to_string() } else { fname(*i) };
                         reps.iter().filter(|f| f.0 == name).flat_map(|f| f.1.clone()).collect::<Vec<_>>()
                     })
                     .map(|mut v: Vec<RLine>| {
@@ -308,7 +317,7 @@ fn run_case(env: &Env, idx: usize, c: &Case, out: &mut Buf) {
             });
             let stray = reps.as_ref().map(|reps| {
                 reps.iter().any(|f| {
-                    let known = if mode == "stdin" { f.0 == "<string>" } else { expect_files.iter().any(|i| f.0 == format!("f{}.sql", i)) };
+                    let known = if mode == "stdin" { f.0 == "<string>" } else { expect_files.iter().any(|i| f.0 == fname(*i)) };
                     !known && !f.1.is_empty()
                 })
             });
@@ -340,10 +349,25 @@ fn run_case(env: &Env, idx: usize, c: &Case, out: &mut Buf) {
                 _ => "None".to_string(),
             };
             let nontrivial = expect_files.iter().any(|i| !lint_vs[*i].is_empty());
-            let sample = json!({"input":{"files":c.files,"rules":c.rules,"parsing_errors":c.parsing_errors,"only":tag},"status":r.status,
+            let sample = json!({"input":{"dialect":c.dialect,"files":c.files,"rules":c.rules,"parsing_errors":c.parsing_errors,"only":tag},"status":r.status,
                 "reported":obs.as_ref().map(|o| o.iter().map(|v| v.iter().map(j_rl).collect::<Vec<_>>()).collect::<Vec<_>>()),
                 "library":expect_files.iter().map(|i| lint_vs[*i].iter().map(|v| j_rl(&v.rl())).collect::<Vec<_>>()).collect::<Vec<_>>()});
             out.case("lint", &tag, nontrivial, gargs, exp, sample);
+        }
+    }
+
+    // ---- "-" mixed with other inputs is refused (is_std_in_flag_input)
+    if idx % 8 == 0 {
+        for shape in [vec!["f0.sql", "-"], vec!["-", "-"], vec!["-", "f0.sql"]] {
+            let mut args = base.clone();
+            args.extend_from_slice(&["lint", "-f", "json"]);
+            args.extend(shape.iter().copied());
+            let r = run(env, &w, &args, Some(&c.files[0]));
+            let refused = r.status == Some(1) && r.stderr.contains("Cannot mix stdin flag with other inputs") && r.stdout.trim().is_empty();
+            out.direct("stdin-flag", refused, "c18-stdin-flag-mix", &format!("'-' mixed with other inputs was not refused: status {:?}", r.status), json!({"input":input,"argv":shape}));
+            let gargs = g_list(shape.iter().map(|a| g_bool(*a == "-")));
+            let exp = if refused { "None" } else { "(Some false)" };
+            out.case("stdinflag", "stdin-flag", true, gargs, exp.to_string(), json!({"input":{"dialect":c.dialect,"files":c.files,"rules":c.rules,"parsing_errors":c.parsing_errors,"only":"stdin-flag"},"argv":shape,"status":r.status}));
         }
     }
 
@@ -372,7 +396,7 @@ fn run_case(env: &Env, idx: usize, c: &Case, out: &mut Buf) {
             }
             let gargs = format!("({},{},1)", gfmt, g_list(fix_vs[0].iter().map(|v| v.g())));
             let exp = if ok_status { format!("(Some ({},{}))", r.status.unwrap(), if r.stdout == want { 1 } else { 2 }) } else { "None".to_string() };
-            let sample = json!({"input":{"files":c.files,"rules":c.rules,"parsing_errors":c.parsing_errors,"only":tag},"status":r.status});
+            let sample = json!({"input":{"dialect":c.dialect,"files":c.files,"rules":c.rules,"parsing_errors":c.parsing_errors,"only":tag},"status":r.status});
             out.case("fixstdin", &tag, !fix_vs[0].is_empty(), gargs, exp, sample);
             continue;
         }
@@ -387,7 +411,7 @@ fn run_case(env: &Env, idx: usize, c: &Case, out: &mut Buf) {
         let mut bad_content: Option<usize> = None;
         let mut touched_unexpected: Option<usize> = None;
         for i in 0..c.files.len() {
-            let f = dir.join(format!("f{}.sql", i));
+            let f = dir.join(fname(i));
             let content = std::fs::read_to_string(&f).unwrap_or_default();
             let written = std::fs::metadata(&f).and_then(|m| m.modified()).ok() != Some(old_time());
             let listed = idxs.contains(&i);
@@ -421,7 +445,7 @@ fn run_case(env: &Env, idx: usize, c: &Case, out: &mut Buf) {
         } else {
             "None".to_string()
         };
-        let sample = json!({"input":{"files":c.files,"rules":c.rules,"parsing_errors":c.parsing_errors,"only":tag},"status":r.status,"writes":writes});
+        let sample = json!({"input":{"dialect":c.dialect,"files":c.files,"rules":c.rules,"parsing_errors":c.parsing_errors,"only":tag},"status":r.status,"writes":writes});
         out.case("fix", &tag, any_viol, gargs, exp, sample);
     }
     let _ = std::fs::remove_dir_all(&root);
@@ -445,7 +469,9 @@ pub fn main(args: &Args) {
     if let Some(path) = args.flag("--replay-input") {
         let v: Value = serde_json::from_str(&std::fs::read_to_string(path).unwrap()).unwrap();
         let v = if v.get("input").is_some() && v["input"].get("files").is_some() { v["input"].clone() } else { v };
+        let d = v["dialect"].as_str().unwrap_or("ansi");
         cases.push(Case {
+            dialect: DIALECTS.iter().copied().find(|x| *x == d).unwrap_or("ansi"),
             files: v["files"].as_array().map(|a| a.iter().map(|x| x.as_str().unwrap_or("").to_string()).collect()).unwrap_or_default(),
             rules: v["rules"].as_str().unwrap_or("core").to_string(),
             parsing_errors: v["parsing_errors"].as_bool().unwrap_or(false),
@@ -453,11 +479,11 @@ pub fn main(args: &Args) {
         });
     } else {
         // regression corpus: the repaired GitHub-format abort, an unfixable-only file, a clean directory
-        cases.push(Case { files: vec![s("SELECT FROM WHERE\n")], rules: s("core"), parsing_errors: true, cls: "regression" });
-        cases.push(Case { files: vec![s("SELECT a FROM t -- noqa:\n"), s("SELECT 1\n")], rules: s("core"), parsing_errors: false, cls: "regression" });
-        cases.push(Case { files: vec![s("SELECT a FROM t1 AS x, t2 AS x\n"), s("SELECT a FROM t\n")], rules: s("AL04"), parsing_errors: false, cls: "regression" });
-        cases.push(Case { files: vec![s("SELECT a FROM t\n"), s("SELECT 1\n")], rules: s("core"), parsing_errors: false, cls: "regression" });
-        cases.push(Case { files: vec![s("SeLeCt  1 from tBl ;\n"), s("SELECT a FROM t\n")], rules: s("CP01,LT01"), parsing_errors: false, cls: "regression" });
+        cases.push(Case { dialect: "ansi", files: vec![s("SELECT FROM WHERE\n")], rules: s("core"), parsing_errors: true, cls: "regression" });
+        cases.push(Case { dialect: "ansi", files: vec![s("SELECT a FROM t -- noqa:\n"), s("SELECT 1\n")], rules: s("core"), parsing_errors: false, cls: "regression" });
+        cases.push(Case { dialect: "ansi", files: vec![s("SELECT a FROM t1 AS x, t2 AS x\n"), s("SELECT a FROM t\n")], rules: s("AL04"), parsing_errors: false, cls: "regression" });
+        cases.push(Case { dialect: "ansi", files: vec![s("SELECT a FROM t\n"), s("SELECT 1\n")], rules: s("core"), parsing_errors: false, cls: "regression" });
+        cases.push(Case { dialect: "ansi", files: vec![s("SeLeCt  1 from tBl ;\n"), s("SELECT a FROM t\n")], rules: s("CP01,LT01"), parsing_errors: false, cls: "regression" });
 
         let snippets: Vec<String> = rule_snippets().into_iter().map(|(_, t)| if t.ends_with('\n') { t } else { format!("{}\n", t) }).filter(|t| usable(t)).collect();
         let n = if args.thorough() { 2500 } else { 260 };
@@ -492,7 +518,8 @@ pub fn main(args: &Args) {
                 }
                 files.push(t);
             }
-            cases.push(Case { files, rules: RULESETS[rng.below(RULESETS.len())].to_string(), parsing_errors: rng.chance(1, 2), cls });
+            let dialect = if rng.chance(2, 3) { "ansi" } else { ["postgres", "bigquery", "snowflake", "sparksql"][rng.below(4)] };
+            cases.push(Case { dialect, files, rules: RULESETS[rng.below(RULESETS.len())].to_string(), parsing_errors: rng.chance(1, 2), cls });
         }
     }
     let items: Vec<(usize, Case)> = cases.into_iter().enumerate().collect();
